@@ -214,6 +214,16 @@ func (s *Script) Propose(from int, start, period, apply int64, docs ...string) J
 	return s.Deliver(tx, from, "proposal")
 }
 
+// ProposeType submits a proposal of the given type (0x0101: parameters; 0x0200: off-chain / common, any option text).
+func (s *Script) ProposeType(from int, optType int32, msg string, start, period, apply int64, docs ...string) J {
+	var opts [][]byte
+	for _, d := range docs {
+		opts = append(opts, []byte(d))
+	}
+	tx := web3.NewTrxProposal(s.R.KR.Addr(from), types.ZeroAddress(), s.nonce(from), s.gas(), s.price(), msg, start, period, apply, optType, opts...)
+	return s.Deliver(tx, from, "proposal")
+}
+
 // Proposals returns the ids of the proposals in voting, sorted.
 func (s *Script) Proposals() []string {
 	var out []string
